@@ -28,6 +28,8 @@ import (
 	"time"
 
 	"github.com/refraction-networking/conjure/pkg/core"
+	"github.com/refraction-networking/conjure/pkg/registrars/dns-registrar/encryption"
+	"github.com/refraction-networking/conjure/pkg/registrars/dns-registrar/requester"
 	pb "github.com/refraction-networking/conjure/proto"
 	"google.golang.org/protobuf/proto"
 )
@@ -36,6 +38,7 @@ type c13mProbe struct {
 	Gen int  `json:"gen"`
 	V4  bool `json:"v4"`
 	V6  bool `json:"v6"`
+	DNS bool `json:"dns"` // through the DNS registrar (real requester over UDP) instead of the HTTP API
 }
 
 type c13mRound struct {
@@ -60,6 +63,7 @@ type c13mCase struct {
 }
 
 type c13mObs struct {
+	DNS    bool   `json:"dns"`
 	Gen    int    `json:"gen"`
 	V4     bool   `json:"v4"`
 	V6     bool   `json:"v6"`
@@ -87,6 +91,7 @@ type c13mRoundObs struct {
 }
 
 type c13mRes struct {
+	Aborted string         `json:"aborted"` // the registrar stopped answering: the remaining rounds were not run
 	Started bool           `json:"started"`
 	Err     string         `json:"err"`
 	Init    c13mObs        `json:"init"`
@@ -128,10 +133,101 @@ func c13mReplace(path string, data []byte) {
 	_ = os.Rename(path+".tmp", path)
 }
 
-var c13mClient = &http.Client{Timeout: 6 * time.Second, Transport: &http.Transport{MaxIdleConnsPerHost: 32}}
+var c13mClient = &http.Client{Timeout: 3 * time.Second, Transport: &http.Transport{MaxIdleConnsPerHost: 32}}
 var c13mSeq atomic.Int64
+var c13mDead atomic.Bool // a registration got no HTTP answer at all
+
+var c13mDNSTarget string
+var c13mDNSPub []byte
+
+func c13mFill(o *c13mObs, rr *pb.RegistrationResponse) {
+	if rr.Ipv4Addr != nil {
+		b := make([]byte, 4)
+		binary.BigEndian.PutUint32(b, rr.GetIpv4Addr())
+		o.V4Set, o.V4Gen = int(b[1]), int(b[2])
+	}
+	if a := rr.GetIpv6Addr(); len(a) == 16 {
+		o.V6Set, o.V6Gen = int(a[3]), int(a[5])
+	}
+	if rr.GetClientConf() != nil {
+		o.CC = int(rr.GetClientConf().GetGeneration())
+	}
+}
+
+// one bidirectional registration through the DNS registrar: the repository's own requester over UDP.
+// Status 200 stands for success=true in the DnsResponse, 500 for success=false; CC is 1 when the
+// response says clientconf_outdated.
+func c13mRegisterDNS(pr c13mProbe) c13mObs {
+	o := c13mObs{DNS: true, Gen: pr.Gen, V4: pr.V4, V6: pr.V6, V4Set: -1, V4Gen: -1, V6Set: -1, V6Gen: -1, CC: -1}
+	tr := pb.TransportType_Min
+	src := pb.RegistrationSource_BidirectionalDNS
+	secret := make([]byte, 32)
+	_, _ = rand.Read(secret)
+	body, _ := proto.Marshal(&pb.C2SWrapper{
+		SharedSecret:       secret,
+		RegistrationSource: &src,
+		RegistrationPayload: &pb.ClientToStation{
+			Transport:           &tr,
+			DecoyListGeneration: proto.Uint32(uint32(pr.Gen)),
+			CovertAddress:       proto.String("1.2.3.4:1234"),
+			V4Support:           proto.Bool(pr.V4),
+			V6Support:           proto.Bool(pr.V6),
+			ClientLibVersion:    proto.Uint32(core.CurrentClientLibraryVersion()),
+		},
+	})
+	rq, err := requester.NewRequester(&requester.Config{TransportMethod: requester.UDP, Target: c13mDNSTarget,
+		BaseDomain: "verif.example.com", Pubkey: c13mDNSPub})
+	if err != nil {
+		o.Err = "requester"
+		return o
+	}
+	type ans struct {
+		b   []byte
+		err error
+	}
+	ch := make(chan ans, 1)
+	go func() { b, err := rq.RequestAndRecv(body); ch <- ans{b, err} }()
+	var a ans
+	select {
+	case a = <-ch:
+		_ = rq.Close()
+	case <-time.After(3 * time.Second):
+		_ = rq.Close()
+		o.Err = "post"
+		c13mDead.Store(true)
+		return o
+	}
+	if a.err != nil {
+		o.Err = "recv"
+		return o
+	}
+	dr := &pb.DnsResponse{}
+	if err := proto.Unmarshal(a.b, dr); err != nil {
+		o.Err = "decode"
+		return o
+	}
+	o.Status = 500
+	if dr.GetSuccess() {
+		o.Status = 200
+	}
+	if dr.GetClientconfOutdated() {
+		o.CC = 1
+	}
+	if dr.GetBidirectionalResponse() != nil {
+		c13mFill(&o, dr.GetBidirectionalResponse())
+		if dr.GetClientconfOutdated() {
+			o.CC = 1
+		} else {
+			o.CC = -1
+		}
+	}
+	return o
+}
 
 func c13mRegister(url string, pr c13mProbe) c13mObs {
+	if pr.DNS {
+		return c13mRegisterDNS(pr)
+	}
 	o := c13mObs{Gen: pr.Gen, V4: pr.V4, V6: pr.V6, V4Set: -1, V4Gen: -1, V6Set: -1, V6Gen: -1, CC: -1}
 	tr := pb.TransportType_Min
 	secret := make([]byte, 32)
@@ -151,6 +247,7 @@ func c13mRegister(url string, pr c13mProbe) c13mObs {
 	resp, err := c13mClient.Post(url, "application/octet-stream", bytes.NewReader(body))
 	if err != nil {
 		o.Err = "post"
+		c13mDead.Store(true)
 		return o
 	}
 	defer resp.Body.Close()
@@ -164,17 +261,7 @@ func c13mRegister(url string, pr c13mProbe) c13mObs {
 		o.Err = "decode"
 		return o
 	}
-	if rr.Ipv4Addr != nil {
-		b := make([]byte, 4)
-		binary.BigEndian.PutUint32(b, rr.GetIpv4Addr())
-		o.V4Set, o.V4Gen = int(b[1]), int(b[2])
-	}
-	if a := rr.GetIpv6Addr(); len(a) == 16 {
-		o.V6Set, o.V6Gen = int(a[3]), int(a[5])
-	}
-	if rr.GetClientConf() != nil {
-		o.CC = int(rr.GetClientConf().GetGeneration())
-	}
+	c13mFill(&o, rr)
 	return o
 }
 
@@ -253,10 +340,13 @@ func TestVerifC13Main(t *testing.T) {
 	}
 	c := cases[0] // main() can be started once per process
 	res := c13mRes{}
-	defer func() {
+	flush := func() {
 		out, _ := json.Marshal([]c13mRes{res})
-		_ = os.WriteFile(os.Getenv("VERIF_OUT"), out, 0o644)
-	}()
+		tmp := os.Getenv("VERIF_OUT") + ".tmp"
+		_ = os.WriteFile(tmp, out, 0o644)
+		_ = os.Rename(tmp, os.Getenv("VERIF_OUT"))
+	}
+	defer flush()
 
 	dir := t.TempDir()
 	subFile := filepath.Join(dir, "phantom_subnets.toml")
@@ -269,6 +359,8 @@ func TestVerifC13Main(t *testing.T) {
 	_ = syscall.Mkfifo(ccFifo, 0o600)
 	_ = os.WriteFile(keyPath, bytes.Repeat([]byte{7}, 64), 0o600)
 	apiPort, zmqPort, dnsPort := c13mFreePort("tcp"), c13mFreePort("tcp"), c13mFreePort("udp")
+	c13mDNSTarget = fmt.Sprintf("127.0.0.1:%d", dnsPort)
+	c13mDNSPub = encryption.PubkeyFromPrivkey(bytes.Repeat([]byte{7}, 32))
 	writeCfg := func(ccPath string) {
 		c13mReplace(cfgPath, []byte(fmt.Sprintf(`
 api_port = %d
@@ -318,8 +410,14 @@ enforce_subnet_overrides = false
 	}
 	state := c13mProbe{Gen: 0, V4: true, V6: true}
 	res.Init = c13mRegister(url, state)
+	flush()
 
-	for _, rd := range c.Rounds {
+	curCC := c.InitCC
+	for ri, rd := range c.Rounds {
+		if c13mDead.Load() {
+			res.Aborted = fmt.Sprintf("a registration got no answer in round %d; rounds %d.. not run", ri-1, ri)
+			break
+		}
 		t0 := time.Now()
 		ro := c13mRoundObs{}
 		ccData := c13mClientConf(rd.CC)
@@ -352,7 +450,7 @@ enforce_subnet_overrides = false
 			stressWG.Add(1)
 			go func(s int) {
 				defer stressWG.Done()
-				for n := 0; !stressStop.Load() && n < rd.StressN; n++ {
+				for n := 0; !stressStop.Load() && !c13mDead.Load() && n < rd.StressN; n++ {
 					pr := rd.Probes[(s+n)%len(rd.Probes)]
 					o := c13mRegister(url, pr)
 					nstress.Add(1)
@@ -414,10 +512,22 @@ enforce_subnet_overrides = false
 				ro.Settled = true
 				break
 			}
-			if time.Now().After(deadline) {
+			if time.Now().After(deadline) || c13mDead.Load() {
 				break
 			}
 			time.Sleep(500 * time.Microsecond)
+		}
+		if c.DNS && !rd.CCBad && ro.Settled && rd.CC > curCC {
+			// the DNS registrar is told last: wait until it reports generation cc-1 as outdated
+			for time.Now().Before(deadline) && !c13mDead.Load() {
+				if o := c13mRegisterDNS(c13mProbe{Gen: rd.CC - 1, V4: true}); o.CC == 1 {
+					break
+				}
+				time.Sleep(500 * time.Microsecond)
+			}
+		}
+		if !rd.CCBad {
+			curCC = rd.CC
 		}
 		stressStop.Store(true)
 		stressWG.Wait()
@@ -428,6 +538,7 @@ enforce_subnet_overrides = false
 		ro.NBad = int(nbad.Load())
 		ro.WallMs = time.Since(t0).Milliseconds()
 		res.Rounds = append(res.Rounds, ro)
+		flush() // the server runs in this process: if it crashes, what was observed so far survives
 	}
 	_ = context.Background
 }
